@@ -55,6 +55,9 @@ func newFootprintFromFont(f *font.Font, location Location, md font.Description) 
 	out.Langs = newLangsetFromCoverage(out.Runes)
 	out.Family = font.NormalizeFamily(md.Family)
 	out.Aspect = md.Aspect
+	// an unspecified aspect means regular : the matching code
+	// (see retainsBestMatches) requires concrete values
+	out.Aspect.SetDefaults()
 	out.Location = location
 	out.isUserProvided = true
 	return out
